@@ -125,6 +125,8 @@ def verify_get_client(E, prop="C12"):
                     E.oblige("%s/post@ret(one-placement-lookup-with-the-routing-key;client-of-that-node;node-in-rotation;stripped-key-returned)%s"
                              % (pre, E.case_suffix), s,
                              z3.And(T(gn[0][0] is route), v.items[0].t == z3.Select(C["cid"], node), z3.Select(R["mem"], node), z3.Select(C["mem"], node)), func=q)
+                    E.oblige("%s/post@ret(the-placement-lookup-is-made-on-the-rotation-after-dead-servers-were-revived)%s" % (pre, E.case_suffix), s,
+                             T(not s.ghost.get("revival_after_lookup")), func=q, meta={"revival_after_lookup": True})
                 else:
                     E.oblige("%s/post@ret(shape)%s" % (pre, E.case_suffix), s, T(False), func=q, meta={"returned": repr(v), "lookups": len(gn)})
     E.case_suffix = ""
